@@ -23,6 +23,15 @@ def _top_index(fn, node):
     return fn.body.index(n)
 
 
+def _ancestors(n, stop):
+    out = []
+    n = getattr(n, "_parent", None)
+    while n is not None and n is not stop:
+        out.append(n)
+        n = getattr(n, "_parent", None)
+    return out
+
+
 def run(ctx):
     ctx.rule("C36.R1", "binop_map maps each Python operator to an IR operator of the same meaning", floor=5)
     ctx.rule("C36.R2", "for-loop lowering: the continue target and the phi back edge are the block that performs the increment; the entry edge is the block that jumps to the test", floor=6)
@@ -95,6 +104,15 @@ def run(ctx):
         moved = [c for c in ast.walk(gf) if isinstance(c, ast.Call) and last_name(c) in ("set_block", "gen_expr", "gen_statement", "gen_cond") and ai < _top_index(gf, c) < first_jump]
         ok = first_jump < bi and not moved
     ctx.ob("C36.R2", fs, "the entry edge of the phi is the block that was current when the jump to the test was emitted", ok, construct="entry-edge-block", node=entry[0])
+    # range() operands are evaluated exactly once, in the block that enters the loop
+    ranames = {norm(n.targets[0]) for n in gf.body if isinstance(n, ast.Assign) and norm(n.value) == "statement.iter.args"} | {"statement.iter.args"}
+    bound = [c for c in calls_in(gf, "gen_expr") if c.args and any(norm(x) in ranames for x in ast.walk(c.args[0]))]
+    ctx.need(bound, "gen_for: evaluation of the range() arguments not found")
+    first_set = min([_top_index(gf, c) for c in calls_in(gf, "set_block")] or [10 ** 6])
+    first_jmp = min([i for c, i in jumps] or [10 ** 6])
+    in_loop = [c for c in bound if _top_index(gf, c) >= min(first_set, first_jmp) or any(isinstance(a, (ast.For, ast.While)) for a in _ancestors(c, gf))]
+    ctx.ob("C36.R2", fs, "range(start, stop): both operands are evaluated once, before the jump into the test block (Python evaluates range() before the first iteration; a body that assigns a variable of the bound must not change the trip count)",
+           not in_loop, construct="range-operands-once", node=in_loop[0] if in_loop else bound[0], detail="%d evaluation(s), %d inside the loop blocks" % (len(bound), len(in_loop)))
     ctx.ob("C36.R2", fs, "`break` leaves to the block made current after the loop", any(norm(c.args[0]) == brk and _top_index(gf, c) > _top_index(gf, back[0]) for c in calls_in(gf, "set_block")), construct="break-target")
     cj = [c for c in ast.walk(gf) if isinstance(c, ast.Call) and norm(c.func) == "ir.CJump"]
     ok = len(cj) == 1 and try_const(cj[0].args[1]) == "<" and norm(cj[0].args[4]) == brk
